@@ -306,7 +306,11 @@ func (bs *BlockStore) PruneBlocks(height int64) (uint64, error) {
 
 		// flush every 1000 blocks to avoid batches becoming too large
 		if pruned%1000 == 0 && pruned > 0 {
-			err := flush(batch, h)
+			// The batch deletes everything up to and including h, so the new base is
+			// h+1 (h+1 <= height <= bs.height, hence that block exists). Persisting h
+			// here would leave a base that points at a deleted block until the next
+			// flush, which is what a crash in between (or a concurrent reader) sees.
+			err := flush(batch, h+1)
 			if err != nil {
 				return 0, err
 			}
